@@ -214,6 +214,10 @@ def _group_def(g):
                             vectors={v["attr"]: _vector_def(v) for v in g["vectors"]})
 
 
+NAME_PROPERTY_DRIVERS = [0]    # drivers built whose public name comes from an overridden `name` property
+OVERRIDDEN_HANDLERS = [0]      # driver chains built whose leaf overrides a vetoing Write handler of its base
+
+
 def build(spec, extra_ns=None, leaf_hook=None):
     """Returns the leaf class (fresh classes for the whole chain).
     leaf_hook(ns, defs) may add methods (event handlers) to the leaf
@@ -223,12 +227,39 @@ def build(spec, extra_ns=None, leaf_hook=None):
     n = next(_counter)
     last = len(spec["levels"]) - 1
     all_defs = {}
+    guarded = []
+    import json
+    import zlib
+    h = zlib.crc32(json.dumps(spec, sort_keys=True, default=repr).encode())       # a function of the definition: replays build the same classes
+    # How the device gets its name: a class attribute (default), or - every fourth generated definition - a `name` property the leaf
+    # class overrides (a name derived from a serial number, say).  The name everybody sees is the public one.
+    name_style = spec.get("name_style") or ("property" if h % 4 == 3 and not spec.get("no_class_name") else "class")
     for li, lv in enumerate(spec["levels"]):
         ns = {} if spec.get("no_class_name") else {"name": spec["name"]}
         for g in lv["groups"]:
             gd = _group_def(g)
             ns[g["attr"]] = gd
             all_defs[g["attr"]] = gd
+        if len(spec["levels"]) >= 2 and not spec.get("instantiate_bases"):
+            # The base driver talks to hardware: a Write handler on everything it defines refuses the value until the device
+            # confirms.  The leaf (a simulator) overrides that method - re-decorated or plain - so the base handler is not in
+            # force for it and every write is simply taken.
+            from indi.device import events as _ev
+            if li == 0:
+                guarded = [e for g in lv["groups"] for v in ns[g["attr"]].vectors.values() for e in v.elements.values()]
+
+                def _vf_confirm_write(self, event):
+                    event.prevent_default = True
+                if guarded:
+                    ns["_vf_confirm_write"] = _ev.on(guarded, _ev.Write)(_vf_confirm_write)
+                    OVERRIDDEN_HANDLERS[0] += 1
+            elif li == last and guarded:
+                def _vf_confirm_write(self, event):
+                    pass
+                ns["_vf_confirm_write"] = _ev.on(guarded, _ev.Write)(_vf_confirm_write) if h % 2 else _vf_confirm_write
+        if li == last and name_style == "property":
+            ns["name"] = property(lambda self, _n=spec["name"]: _n)
+            NAME_PROPERTY_DRIVERS[0] += 1
         if li == last:
             if extra_ns:
                 ns.update(extra_ns)
